@@ -77,6 +77,13 @@ var propInfo = map[string]struct {
 			"an `in (list)` node closes at the list's parenthesis and is given level 6: what follows it continues as after a parenthesised expression (a list is not an operand of any documented operator)",
 			"termination / stack depth of the mutually recursive parser functions is not proved here",
 		}},
+	"C16": {"proof",
+		"The lexer is under contract. buildToken: the token is nil exactly for blank input, otherwise it carries the lower-cased trimmed word, the offset of the word's first byte (leading white space skipped) and the kind given by the documented keyword table, then integer, float, name. Lexer.Split, for every query string: every token appended to the result satisfies tokP - a STRING token's text is exactly the bytes between two equal quote characters (' or \") at Pos and Pos+len+1; a back-quoted NAME likewise; every other token's text equals (symbols, two-character operators) or is the lower-case form of (words, keywords, numbers) the query bytes at [Pos, Pos+len), which lie inside the query - proved with a loop invariant over the scanner state (pending word = query[tokStart:i], quote state, previous byte) and one local obligation per append site (13), invariant preservation decided path by path (25 paths).",
+		[]string{
+			"NOT covered: that spacing between tokens is irrelevant (a relation between two runs: outside per-call contracts), that a quoted literal contains no earlier closing quote (would need a quantified scanner invariant; the closing quote found is the first one by construction of the scan), that no query byte outside blanks is dropped (`^` or `~` not followed by `=` is silently skipped), case folding beyond T-STD",
+			"T-STD: strings.ToLower preserves length; strings.TrimSpace / TrimLeftFunc(unicode.IsSpace) remove lead(s) leading bytes; strconv.ParseInt / ParseFloat success are the spec predicates parseIntOk / parseFloatOk",
+			"tokP_def is the definition of the token predicate (unfolded at the append sites only)",
+		}},
 	"C17": {"proof",
 		"Error rendering and error positions, proved on the real code. (1) outputQueryAndErrPos, for every query text, offset and padding: the result is <window>\\n<blanks>^--\\n; the window shows a piece of the trimmed query that contains the offset (cut marks `... ` / ` ...` at the ends), and for an offset inside the trimmed text the caret column points at exactly the byte query[offset] of the ORIGINAL (untrimmed) query; -1 puts the caret just past the end; no slice goes out of range for any offset (the window width and cut positions are the code's choice and are not pinned, so changing them is not an alarm). (2) SyntaxError/ExecuteError.Error() after BindQuery start with exactly that rendering for the carried offset and padding; NewSyntaxError / NewExecuteError carry the position they are given. (3) Every SyntaxError produced by the expression parser (parseExpr ... parseOperand, expect) carries -1, 0 or the Pos of one of the parser's tokens.",
 		[]string{
